@@ -80,7 +80,7 @@ PROPS = {
         units=['reqresp', 'status'], level='proof',
         not_covered=[
             'the Interceptor itself is an arbitrary relation (any function of the request); the inner service is seen through a ghost log of the requests it was called with (A-tower-01)',
-            'ResponseBody::poll_frame (Empty => no frames, Wrap => inner frames) is not yet under contract',
+            'ResponseBody::{poll_frame,is_end_stream} are under contract (a veto response has no body frames, a forwarded body is forwarded frame by frame); size_hint is not',
             'InterceptorLayer / generated client-server wiring that installs the InterceptedService',
         ]),
     'C04': dict(
